@@ -808,6 +808,61 @@ func cmdMem(args []string) {
 		}
 		cp("queries", false, (c+1)**ops/4, 0)
 	}
+	// phase 1b: long runs of ONE kind of query each (a buffer that only some other call resets grows here)
+	pure := []struct {
+		name string
+		f    func(k int)
+	}{
+		{"q-search", func(k int) { d.Search(k) }},
+		{"q-range", func(k int) {
+			name := "Range"
+			if !d.HasRange() {
+				name = "RangeAny"
+			} else if !d.RangeOK(k, k) {
+				return
+			}
+			for range d.Seq(name, k, 1+r.Intn(len(uni)), 0) {
+				break
+			}
+		}},
+		{"q-prefix", func(k int) {
+			if d.HasPrefix() {
+				for range d.Seq("Prefix", k, 0, 0) {
+					break
+				}
+			}
+		}},
+		{"q-ends", func(k int) {
+			d.Min()
+			d.Max()
+			for range d.Seq("TopK", 0, 0, 1+k%3) {
+			}
+			for range d.Seq("BottomK", 0, 0, 1+k%3) {
+			}
+		}},
+		{"q-walk", func(k int) {
+			n := 0
+			for range d.Seq("All", 0, 0, 0) {
+				if n++; n > k%7 {
+					break
+				}
+			}
+			for range d.Seq("Backward", 0, 0, 0) {
+				if n++; n > k%11 {
+					break
+				}
+			}
+		}},
+	}
+	for _, pr := range pure {
+		cp(pr.name, true, 0, 0)
+		for c := 0; c < 2; c++ {
+			for i := 0; i < *ops/4; i++ {
+				pr.f(1 + r.Intn(len(uni)))
+			}
+			cp(pr.name, false, (c+1)**ops/4, 0)
+		}
+	}
 	// phase 2: overwrites of present keys
 	cp("overwrites", true, 0, 0)
 	for c := 0; c < 4; c++ {
